@@ -17,6 +17,15 @@ CHECKS = {
  "C10": ("model_checking", "TLC model checking of BufBound/Verdict under every memory limit + replay into the raw decoder",
          "For every limit m in 0..D and none, TLC checks that the modelled window never exceeds m and fails exactly when min(D, produced) > m; the behaviours are replayed with memlimit = m on the real decoder (verdict and bytes).",
          "5 C10"),
+ "C05": ("model_checking", "TLC model checking of Stream.tla (all shapes x all chunkings; real constants read from the code) + TLC trace validation of recorded Stream executions + differential against the one-shot decoder",
+         "EqOneShot is checked by TLC on every composition of every bounded stream shape into write calls, and on the real constants (read from the implementation through the hook) with symbols costing up to the format bound of 20 bytes. The model is bound to the code by validating every call of seeded runs of the real Stream (return value, phase, tmp fill, partial-buffer fill, committed symbols) against the specification; the contract (verdict and bytes equal to the one-shot decoder on the same input) is compared for every run.",
+         "5 C05"),
+ "C15": ("model_checking", "TLC model checking of Lag/Progress in Stream.tla + trace validation + prefix runs with allow_incomplete on the real Stream",
+         "Lag (accepted-but-uncommitted bytes = partial buffer + staging buffer <= 27) and Progress (whatever is decodable from the accepted bytes is committed) are invariants of Stream.tla checked for all shapes x chunkings; on the real code every sampled prefix of valid streams is fed under random chunkings with allow_incomplete: sink and finish() output must be prefixes of the full output and include all symbols ending 64 bytes before the cut; finish must succeed iff header + preamble are inside the prefix.",
+         "5 C15"),
+ "C16": ("model_checking", "TLC model checking of the Latch action property + trace validation of call sequences that continue after failure / completion",
+         "Latch ([][phase = None => nothing moves]_vars) and NoZeroProgress are checked on every behaviour of the bounded models; real call sequences keep calling write/flush after the first error or after the declared size was reached and every call is validated against the spec; contract: no consumption, no sink growth, finish is Err after a failed write; Ok(0) and unchanged output after completion; no panic.",
+         "5 C16"),
 }
 NOT_YET = {}
 props = [json.loads(l) for l in open(os.path.join(V, "properties.jsonl"))]
